@@ -243,13 +243,21 @@ func ParseField(v reflect.Value, bytes []byte, params fieldParameters) error {
 					}
 				}
 
+				untagged := 0
 				for i := 1; i < structType.NumField(); i++ {
 					if structParams[i].tagNumber == nil {
-						// TODO: choice type with a universal tag
+						// an alternative without a tag of its own (e.g. a nested
+						// CHOICE) is recognised by its own decoder
+						if untagged == 0 {
+							untagged = i
+						}
 					} else if *structParams[i].tagNumber == tal.tagNumber {
 						present = i
 						break
 					}
+				}
+				if present == 0 {
+					present = untagged
 				}
 				val.Field(0).SetInt(int64(present))
 				if present == 0 {
